@@ -19,12 +19,12 @@ def opName : Gc.Op → String
   | .slice => "slice" | .mov => "mov" | .smov => "smov" | .amov => "amov"
   | .ret => "ret" | .gc => "gc" | .circ => "circ"
 
-/-- `c|v . id . key . bits . s|u . cint` -/
+/-- `c|v . id . key . bits . s|u . cint . hash` -/
 def parseArg (s : String) : Option Arg :=
   match s.splitOn "." with
-  | [c, id, key, bits, sg, ci] => do
+  | [c, id, key, bits, sg, ci, h] => do
     some { const := c == "c", id := ← id.toNat?, key := ← key.toNat?, bits := ← bits.toNat?,
-           signed := sg == "s", cint := ← ci.toNat? }
+           signed := sg == "s", cint := ← ci.toNat?, hash := ← h.toNat? }
   | _ => none
 
 /-- `op:out:in|in|...` -/
@@ -39,18 +39,24 @@ def parseStep (s : String) : Option Step :=
 def parseSteps (s : String) : Option (List Step) :=
   if s == "-" then some [] else (s.splitOn ";").mapM parseStep
 
-def parseInputs (s : String) : Option (List (Nat × Nat)) :=
+def parseInputs (s : String) : Option (List InputDef) :=
   (s.splitOn ",").mapM fun p =>
     match p.splitOn "." with
-    | [k, b] => do some (← k.toNat?, ← b.toNat?)
+    | [k, b, h] => do some { key := ← k.toNat?, bits := ← b.toNat?, hash := ← h.toNat? }
     | _ => none
+
+/-- `zeroKey.zeroHash,oneKey.oneHash` -/
+def parseZO (s : String) : Option ((Nat × Nat) × (Nat × Nat)) :=
+  match (s.splitOn ",").map (·.splitOn ".") with
+  | [[zk, zh], [ok, oh]] => do some ((← zk.toNat?, ← zh.toNat?), (← ok.toNat?, ← oh.toNat?))
+  | _ => none
 
 def parseConsts (s : String) : Option (List ConstDef) :=
   if s == "-" then some [] else
   (s.splitOn ",").mapM fun p =>
     match p.splitOn "." with
-    | [k, b] => do
-      some { key := ← k.toNat?, bits := if b == "e" then [] else b.toList.map (· == '1') }
+    | [k, b, h] => do
+      some { key := ← k.toNat?, hash := ← h.toNat?, bits := if b == "e" then [] else b.toList.map (· == '1') }
     | _ => none
 
 def argStr (a : Arg) : String := if a.const then "c" else s!"v{a.id}"
@@ -65,19 +71,19 @@ def stepsStr (l : List Step) : String := "/".intercalate (l.map stepStr)
 
 def natsStr (l : List Nat) : String := if l.isEmpty then "-" else ",".intercalate (l.map toString)
 
-def handleGc (full : Bool) (inputs consts steps : String) : String :=
-  match parseInputs inputs, parseConsts consts, parseSteps steps with
-  | some ins, some cs, some prog =>
+def handleGc (full : Bool) (inputs zo consts steps : String) : String :=
+  match parseInputs inputs, parseConsts consts, parseSteps steps, parseZO zo with
+  | some ins, some cs, some prog, some (zk, ok) =>
     match gcPass prog with
     | none => "gc-panic"
     | some out =>
       let head := s!"steps={stepsStr out}"
       if !full then head else
-      let (st, tr) := streamTrace ins cs out
+      let (st, tr) := streamTrace ins cs out zk ok
       if st.panic then head ++ ";alloc-panic" else
       let circ := ",".intercalate (tr.circs.map fun (i, m) => s!"{i}:{m}")
       head ++ s!";ret={natsStr tr.retIds};circ={circ}"
-  | _, _, _ => "bad-op"
+  | _, _, _, _ => "bad-op"
 
 /-! ### `codec`: Streaming.Garble bytes -/
 
@@ -153,8 +159,8 @@ def handleCodec (key tape pids x : String) (specs : List String) : String :=
 
 def handle (args : List String) : String :=
   match args with
-  | ["gc", inputs, consts, steps] => handleGc true inputs consts steps
-  | ["gco", inputs, consts, steps] => handleGc false inputs consts steps
+  | ["gc", inputs, zo, consts, steps] => handleGc true inputs zo consts steps
+  | ["gco", inputs, zo, consts, steps] => handleGc false inputs zo consts steps
   | ["skip"] => "unsupported"
   | "codec" :: key :: tape :: pids :: x :: specs => handleCodec key tape pids x specs
   | _ => "bad-op"
